@@ -50,7 +50,7 @@ def dRight : Ident := ⟨[98], [114, 105, 103, 104, 116]⟩
 def dBot : Ident := ⟨[99], [98, 111, 116]⟩
 def dLeft2 : Ident := ⟨[99], [108, 101, 102, 116]⟩
 def dLoc : Ident := ⟨[108], [108, 111, 99]⟩
-def diamond : IdCtx := ⟨[⟨dTop, []⟩, ⟨dLeft, [dTop]⟩, ⟨dRight, [dTop]⟩, ⟨dBot, [dLeft, dRight]⟩, ⟨dLeft2, [dTop]⟩, ⟨dLoc, [dLeft]⟩]⟩
+def diamond : IdCtx := { defs := [⟨dTop, []⟩, ⟨dLeft, [dTop]⟩, ⟨dRight, [dTop]⟩, ⟨dBot, [dLeft, dRight]⟩, ⟨dLeft2, [dTop]⟩, ⟨dLoc, [dLeft]⟩] }
 
 theorem diamond_wf : diamond.WF := by
   refine ⟨fun i => if i = dTop then 0 else if i = dLeft then 1 else if i = dRight then 2 else if i = dBot then 3 else if i = dLeft2 then 4 else 5, ?_, ?_⟩
@@ -70,10 +70,11 @@ example : Derived diamond dTop dBot ∧ Derived diamond dLeft dLoc ∧ ¬ Derive
 /-! ## acceptance -/
 
 /-- what RFC 7950 §9.10 says about a lexical value `s` and the identity `i` it denotes: `s` is `[prefix ":"] name` (split at the first
-    colon) with a non-empty name, the prefix (or its absence) resolves to the module of `i`, `i` is an identity of the module set, and
-    `i` is derived from the bases as `D` says -/
+    colon) with a non-empty name, the prefix (or its absence) resolves to the module of `i`, `i` is an identity of the module set and is
+    not disabled by `if-feature` -/
 def Denotes (c : IdCtx) (pm : PrefixMap) (s : Bytes) (i : Ident) : Prop :=
-  (splitPrefix s).2 ≠ [] ∧ resolve pm (splitPrefix s).1 = some i.mod ∧ i.name = (splitPrefix s).2 ∧ ∃ df ∈ c.defs, df.id = i
+  (splitPrefix s).2 ≠ [] ∧ resolve pm (splitPrefix s).1 = some i.mod ∧ i.name = (splitPrefix s).2 ∧ (∃ df ∈ c.defs, df.id = i) ∧
+    i ∉ c.disabled
 
 /-- `identityref_accept_iff` for the REPAIRED plug-in (`fixes/F410.diff`; `Generated.identBaseAll = true`): a value is stored as
     identity `i` ⇔ the hints allow a string, `s` denotes `i`, and `i` is derived from — not equal to — EVERY base of the type
@@ -157,9 +158,9 @@ theorem identityref_canon_idempotent (c : IdCtx) (hwf : c.WF) (ab : Bool) (bases
     (hj : pmj.table.lookup i.mod = some i.mod) :
     storeIdWith ab c bases pmj hints (canonId i) = .ok i := by
   rw [storeIdWith_ok_iff hwf] at h ⊢
-  obtain ⟨hh, hne, _, hname, hdef, hder⟩ := h
+  obtain ⟨hh, hne, _, hname, hdef, hnd, hder⟩ := h
   rw [splitPrefix_canon hcolon]
-  refine ⟨hh, ?_, ?_, rfl, hdef, hder⟩
+  refine ⟨hh, ?_, ?_, rfl, hdef, hnd, hder⟩
   · rw [hname]; exact hne
   · simp only [resolve]
     have : i.mod.isEmpty = false := by
